@@ -157,8 +157,11 @@ func (s *sim) proveOps() {
 	n := len(s.data)
 	rng := s.rng
 	pos := subset(rng, n)
-	if rng.Intn(6) == 0 { // a query that is not in the tree
-		pos = append(pos, n+rng.Intn(3))
+	if rng.Intn(4) == 0 { // queries that are not in the tree (index 0 in the proof), at ANY place of the query list
+		for k := 1 + rng.Intn(2); k > 0; k-- {
+			at := rng.Intn(len(pos) + 1)
+			pos = append(pos[:at], append([]int{n + rng.Intn(3)}, pos[at:]...)...)
+		}
 	}
 	if rng.Intn(25) == 0 && len(pos) > 0 { // the same leaf twice
 		pos = append(pos, pos[0])
